@@ -137,6 +137,34 @@ def discipline_job(prop):
                assumed=["a point array reaches a family object only as a direct argument of base-> / get<>()-> calls in TasmanianSparseGrid.cpp (GPU paths are scanned but cannot be replayed here)"],
                label="every point-taking member of TasmanianSparseGrid hands the pulled-back points to the family object (%d calls)" % len(calls))
 
+REPLAY_QSCALE = r'''
+/* On the real library: the quadrature weights of a 2-D / 3-D tensor grid on a transformed domain sum to the product of the sums of the 1-D grids with
+ * the transform of each direction (every direction contributes its own scale factor), for one rule of each family of getQuadratureScale. */
+int main_replay(){
+  using namespace TasGrid;
+  int bad = 0;
+  for (auto rule : {rule_clenshawcurtis, rule_gausslegendre, rule_gausschebyshev2, rule_gaussgegenbauer, rule_gaussjacobi, rule_gausslaguerre, rule_gausshermite}) for (int dims = 2; dims <= 3; dims++) {
+    bool unb = (rule == rule_gausslaguerre || rule == rule_gausshermite);
+    std::vector<double> a = {-2.0, 1.0, 0.5}, b = {3.0, 2.0, 4.5};
+    if (unb) { a = {0.5, -1.0, 2.0}; b = {2.0, 0.5, 3.0}; }
+    a.resize(dims); b.resize(dims);
+    TasmanianSparseGrid g = makeGlobalGrid(dims, 0, 2, type_tensor, rule, std::vector<int>(), 0.5, 1.5);
+    g.setDomainTransform(a, b);
+    double s = 0; for (double w : g.getQuadratureWeights()) s += w;
+    double prod = 1.0;
+    for (int d = 0; d < dims; d++) { TasmanianSparseGrid h = makeGlobalGrid(1, 0, 2, type_tensor, rule, std::vector<int>(), 0.5, 1.5); h.setDomainTransform({a[d]}, {b[d]}); double t = 0; for (double w : h.getQuadratureWeights()) t += w; prod *= t; }
+    if (!(std::abs(s - prod) <= 1.E-10 * (1.0 + std::abs(prod)))) { std::printf("rule %d, %d dimensions: the weights sum to %.12g, the product of the 1-D sums is %.12g\n", (int) rule, dims, s, prod); bad++; }
+  }
+  __CPROVER_assert(bad == 0, "L10c the quadrature scale of a transformed domain is the product of the factors of all directions");
+  return 0;
+}
+'''
+def replay_qscale(prop):
+    def rp(job, ob, vals, wd):
+        hdr = "Replay through the public API of the real library.\nproperty %s job %s\nobligation %s: %s\nat %s" % (prop, job.name, ob["name"], ob["description"], ob["location"])
+        return RP.write_and_run(prop, job.name + "." + ob["name"], hdr, ['"TasmanianSparseGrid.hpp"', '<cmath>'], REPLAY_QSCALE, "  main_replay();", lib="sg", timeout=60)
+    return rp
+
 def jobs(tier, seed, prop):
     R = X.Rules()
     enums = tables.cut_enum("TypeOneDRule", R)[0]
@@ -152,6 +180,8 @@ def jobs(tier, seed, prop):
     if tier == "quick":     # quick: the [-1,1] family always, one further family chosen by the seed; thorough: all families
         other = ["laguerre", "hermite", "fourier"][seed % 3]
         pairs = [(l, f) for l, f in pairs if f in ("canonical", other) or (l == "lemma_qscale" and f == "jacobi") or l == "lemma_jacobian"]
+    if prop == "C02":       # C02: the quadrature scale of the transformed domain (product over the dimensions) only
+        pairs = [(l, f) for l, f in pairs if l == "lemma_qscale"]
     if prop == "C05":       # C05: the Jacobian factor (L10b inside lemma_roundtrip) and the chain-rule loops below
         pairs = [(l, f) for l, f in pairs if l == "lemma_jacobian"]
     for lem, fam in pairs:
@@ -161,12 +191,14 @@ def jobs(tier, seed, prop):
         pre_f = pre.replace("#define LB ", "#define FAMILY(r) %s\n#define LB " % fexpr, 1)
         out.append(Job("transforms.%s.%s" % (lem, fam), pre_f + cf.text(("lemma",), [lem]) + cf.text(("harness",), ["h_" + lem]), "h_" + lem, enforce=lem, split=r'lemma_\w+\.assertion\.\d+$',
                        pre_unwindset={r'mapCanonicalToTransformed|mapTransformedToCanonical|getQuadratureScale|diffCanonicalTransform|tsg_\w+': 4},
-                       timeout=600 if tier == "quick" else 3000, backends=[["--sat-solver", "cadical"], []], functions=fl, info=info,
+                       timeout=600 if tier == "quick" else 3000, backends=[["--sat-solver", "cadical"], []], functions=fl, info=info, replay=replay_qscale(prop) if lem == "lemma_qscale" else None,
                        bounded="exact lattice: |a| <= 2^%d, widths 2^k with k <= %d, canonical x = i*2^-%d; dimensions <= 2" % (LB, KMAX, LX),
                        assumed=["sqrt(x) returns r >= 0 with r*r == x on perfect squares (stub)", "pow is uninterpreted; only its arguments are checked",
                                 "rounding off the lattice and the conformal (asin) map are not covered"],
                        label={"lemma_roundtrip": "L10a forward and inverse maps are mutual inverses, end points map to a and b",
                               "lemma_jacobian": "L10b the Jacobian of the pull-back is its multiplicative rate", "lemma_qscale": "L10c quadrature scale per rule family"}[lem] + " [family: %s]" % fam))
+    if prop == "C02":
+        return out
     # chain-rule scaling loops at grid level
     Rc = X.Rules()
     ct, cinfo = transforms.emit_chain_loops(Rc)
